@@ -13,6 +13,8 @@ enum RK {
     AnyNl,
     Class(bool, Vec<(char, char)>, bool),
     Perl(char),
+    /// one character accepted by the regex (None = the zero-width `\n*$`)
+    Raw(Option<regex::Regex>),
     Assert(A),
     Concat(Vec<R>),
     Alt(Vec<R>),
@@ -94,6 +96,15 @@ impl Comp {
             Node::AnyNl => RK::AnyNl,
             Node::Class(neg, rs) => RK::Class(*neg, rs.clone(), fl.i),
             Node::Perl(p) => RK::Perl(*p),
+            Node::Raw(p, ci) => {
+                if p == "\\n*$" {
+                    RK::Raw(None)
+                } else {
+                    let ci = *ci || fl.i;
+                    let pat = if ci { format!(r"\A(?i:{})\z", p) } else { format!(r"\A(?:{})\z", p) };
+                    RK::Raw(Some(regex::Regex::new(&pat).expect("delegate pattern accepted by the regex crate")))
+                }
+            }
             Node::Assert(a) => RK::Assert(match (a, fl.m) {
                 (A::StartText, true) => A::StartLine,
                 (A::EndText, true) => A::EndLine,
@@ -291,6 +302,13 @@ impl<'t> M<'t> {
                         _ => unreachable!(),
                     };
                     r != p.is_ascii_uppercase()
+                })
+            }
+            RK::Raw(None) => self.text[pos..].bytes().all(|b| b == b'\n') && k(self, self.text.len(), st),
+            RK::Raw(Some(re)) => {
+                self.one(pos, st, k, |x| {
+                    let mut buf = [0u8; 4];
+                    re.is_match(x.encode_utf8(&mut buf))
                 })
             }
             RK::Assert(a) => {
